@@ -34,6 +34,4 @@ QuickPrograms == { <<Regs(32768, 1, 1, 65000), pr \o Handlers>> : pr \in {P1, P4
 
 AllPlans == { <<3, 5, 2, 7, 4>>, <<1, 1, 2, 9, 3, 1>>, <<6, 6, 6, 6>>, <<2, 2, 2, 2, 2, 2, 2>> }
 QuickPlans == { <<3, 5, 2, 7, 4>>, <<1, 2, 9, 1>> }
-TinyPrograms == { <<Regs(32768, 1, 1, 65000), P2 \o Handlers>> }
-TinyPlans == { <<3, 5>> }
 =============================================================================
